@@ -417,3 +417,34 @@ func verifHarnessC05AuditFile() {
 	assert("audit-append-only-owner-only", and(verifOpenFlags.flag == os.O_WRONLY|os.O_APPEND|os.O_CREATE, verifOpenFlags.perm == 0600))
 	reach("end")
 }
+
+// A database opened from an existing file (not the object that created it) never consults the KEK again, for any operation.
+func verifC05Reopened(op int) {
+	verifEnvReset()
+	kek := &verifKEK{key: verifKEKID}
+	k := verifSymKVOnDisk(kek, param("secrets"), param("versions"))
+	assume(verifKVInv(k))
+	assume(verifKVBound(k))
+	assume(k.save() == nil)
+	k2, err := openOrCreateKV(k.path, kek)
+	assume(and(err == nil, k2 != nil))
+	uses0 := ghostCount("kek.use")
+	d := verifDB(k2, &verifSink{})
+	name := nondetString("name")
+	ver := api.SecretVersion(nondetU32("version"))
+	kek.fail = true // the key service may be down after start-up: irrelevant for a running server
+	res := verifCallOp(d, op, verifSuperuser(), name, ver, nondetSeq("val"))
+	kek.fail = false
+	assert("reopened-db-never-consults-kek", ghostCount("kek.use") == uses0)
+	_ = res
+	// and what it wrote is still a database of the same key
+	k3, err3 := openOrCreateKV(k.path, kek)
+	assert("file-written-by-reopened-db-opens", and(err3 == nil, k3 != nil))
+	assert("file-written-by-reopened-db-holds-its-state", deepEq(k3.secrets, k2.secrets))
+	reach("end")
+}
+
+func verifHarnessC05ReopenedPut()           { verifC05Reopened(opPut) }
+func verifHarnessC05ReopenedActivate()      { verifC05Reopened(opActivate) }
+func verifHarnessC05ReopenedDeleteVersion() { verifC05Reopened(opDeleteVersion) }
+func verifHarnessC05ReopenedDelete()        { verifC05Reopened(opDelete) }
